@@ -156,6 +156,18 @@ func VerifC03_Ante() {
 	} else {
 		feeCoins = vFee(fee)
 	}
+	// the fee may also be offered (partly) in a denomination that is not the staking token
+	foreign := zz.Choice("fee_in_foreign_denom", 2) == 1
+	if foreign {
+		aaa := sdk.NewCoins(sdk.NewCoin("aaa", sdk.NewInt(5)))
+		if err := a.ak.MintCoins(a.ctx, "minter", aaa); err != nil {
+			panic(err)
+		}
+		if err := a.ak.SendCoinsFromModuleToAccount(a.ctx, "minter", signer, aaa); err != nil {
+			panic(err)
+		}
+		feeCoins = feeCoins.Add(aaa)
+	}
 	memo := "m"
 	signedBytes, err := types.StdSignBytes(a.ctx.ChainID(), entropy, feeCoins, msg, memo)
 	if err != nil {
@@ -194,7 +206,7 @@ func VerifC03_Ante() {
 	case 4:
 		tx.Msg = postypes.MsgSend{FromAddress: signer, ToAddress: attacker, Amount: amount}
 	}
-	unchanged := mutated == 0 || (mutated == 1 && tx.Entropy == entropy) || (mutated == 2 && tx.Fee.IsEqual(feeCoins))
+	unchanged := mutated == 0 || (mutated == 1 && tx.Entropy == entropy) || (mutated == 2 && !foreign && tx.Fee.IsEqual(feeCoins))
 	_ = chain
 
 	indexed := zz.Bool("txindex.contains")
